@@ -797,6 +797,57 @@ fn tree_of(root: &Path, sqlite: bool) -> Vec<(String, u64, String)> {
     out
 }
 
+/// `SyncStatus` as a string that does not depend on the in-memory order of
+/// the folder map (which follows directory iteration order after a restart).
+pub fn canonical_status(status: &SyncStatus) -> EResult<String> {
+    let j = |v: &dyn erased::Ser| v.json();
+    let mut folders: Vec<(String, String)> = vec![];
+    for (id, state) in &status.folders {
+        folders.push((id.to_string(), j(state)?));
+    }
+    folders.sort();
+    Ok(format!(
+        "root={} identity={} account={} device={} files={} folders={:?}",
+        status.root,
+        j(&status.identity)?,
+        j(&status.account)?,
+        j(&status.device)?,
+        match &status.files {
+            Some(f) => j(f)?,
+            None => "none".into(),
+        },
+        folders
+    ))
+}
+
+mod erased {
+    /// tiny helper: serialise to a JSON string
+    pub trait Ser {
+        fn json(&self) -> Result<String, String>;
+    }
+    impl<T: serde::Serialize> Ser for T {
+        fn json(&self) -> Result<String, String> {
+            serde_json::to_string(self).map_err(|e| format!("json: {e}"))
+        }
+    }
+}
+
+/// Recursive copy of a (server data) directory.
+pub fn copy_dir_all(src: &Path, dst: &Path) -> EResult<()> {
+    std::fs::create_dir_all(dst).map_err(es("mkdir"))?;
+    for e in walkdir::WalkDir::new(src) {
+        let e = e.map_err(es("walk"))?;
+        let rel = e.path().strip_prefix(src).map_err(es("strip"))?;
+        let to = dst.join(rel);
+        if e.file_type().is_dir() {
+            std::fs::create_dir_all(&to).map_err(es("mkdir"))?;
+        } else if e.file_type().is_file() {
+            std::fs::copy(e.path(), &to).map_err(es("copy"))?;
+        }
+    }
+    Ok(())
+}
+
 /// Observe the server without going through HTTP.
 pub async fn snapshot(
     client: &reqwest::Client,
@@ -827,8 +878,7 @@ pub async fn snapshot(
             accounts.insert(
                 id.to_string(),
                 AccountView {
-                    sync_status: serde_json::to_string(&status)
-                        .map_err(es("status json"))?,
+                    sync_status: canonical_status(&status)?,
                     folders,
                     devices,
                 },
